@@ -4,6 +4,7 @@
 # VERIF_REPO (separate target dir), prints one line per check: <patch> <id> CAUGHT|MISSED|ERROR.
 # Never touches /repo. Env: MUT_TIER (quick), MUT_KEEP=1 keeps the copy.
 set -u
+V="${VERIF_HOME:-/verif}"   # a snapshot copy of /verif may be used, so that the sources can be edited meanwhile
 patch="$(readlink -f "$1")"; shift
 name="$(basename "$patch" | sed 's/\.patch$//; s/\.diff$//')"
 SLOT="${MUT_SLOT:-0}"
@@ -18,7 +19,7 @@ if ! git -C "$copy" apply "$patch"; then echo "$name - ERROR patch does not appl
 for id in "$@"; do
     out="/dev/shm/mutout.$SLOT.$name.$id.log"
     VERIF_REPO="$copy" VERIF_TARGET="$target" VERIF_DIR="/dev/shm/mutverif.$SLOT" \
-      bash -c "mkdir -p /dev/shm/mutverif.$SLOT && cp /verif/known_findings.json /dev/shm/mutverif.$SLOT/ && /verif/check $id --tier ${MUT_TIER:-quick}" > "$out" 2>&1
+      bash -c "mkdir -p /dev/shm/mutverif.$SLOT && cp $V/known_findings.json /dev/shm/mutverif.$SLOT/ && $V/check $id --tier ${MUT_TIER:-quick}" > "$out" 2>&1
     code=$?
     if grep -q "^VIOLATION property=$id" "$out"; then
         echo "$name $id CAUGHT ($(grep -c '^VIOLATION' "$out") signatures: $(grep -A1 '^VIOLATION' "$out" | grep '^  \[' | sed 's/^  \[\([^]]*\)\].*/\1/' | sort -u | tr '\n' ' '))"
